@@ -839,6 +839,42 @@ class _Ops:
                 out.append(self.state(o))
         return out
 
+    def params_changed_in_place(self, params, what: str):
+        """Model effect of an optimiser writing into ``params`` (which may belong to link targets)."""
+        ptrs = {p.untyped_storage().data_ptr() for p in params}
+        for st_ in list(self.st.values()):
+            o = st_.obj
+            if isinstance(o, CompositeTransform) or kind_of(o) not in ("P", "B"):
+                continue
+            if o.params.untyped_storage().data_ptr() in ptrs:
+                st_.buf = "unknown"
+                st_.affine_params = False
+                if family(o) in ("dense", "spline"):
+                    st_.smooth = False
+                self.mark_pairs(st_, False, what)
+
+    def link_dependents(self, obj) -> bool:
+        """Some other elementary object reads obj's parameters through a link (directly or transitively)."""
+        for o in self.all_objs():
+            if isinstance(o, CompositeTransform) or o is obj:
+                continue
+            cur, seen = o, set()
+            while kind_of(cur) == "L" and id(cur) not in seen:
+                seen.add(id(cur))
+                cur = cur.params
+                if cur is obj:
+                    return True
+        return False
+
+    def sole_owner(self, x: H) -> bool:
+        """x holds a simulator callable that follows x's own shape and that nothing else uses."""
+        t = x.obj
+        if kind_of(t) != "C" or self.owned_by_pred(x) or getattr(t.params, "owner", {}).get("t") is not t:
+            return False
+        if self.link_dependents(t):
+            return False
+        return not any(o is not t and getattr(o, "params", None) is t.params for o in self.all_objs())
+
     # -------------------------------------------------------- roots
     def op_new(self, op) -> StepResult:
         try:
@@ -1115,6 +1151,9 @@ class _Ops:
                            "observed_through": which + ("(grid)" if g is not None else "")})
             # name the part of x that holds predicted/linked parameters (the only state a linear model caches)
             culprits = [e for e in self.elems(x) if kind_of(e.obj) in ("C", "L") and family(e.obj) == "lin"]
+            waiting = [e for e in culprits if e.buf == "cleared" and e.cause]
+            if waiting:
+                culprits = waiting  # only these caches were due for a refresh; fresh link caches are not suspects
             if generic_pred(x.obj):
                 fam, kd = "generic", "C"
             elif culprits:
@@ -1192,7 +1231,7 @@ class _Ops:
         if not hasattr(t, setter):
             return StepResult("skipped")
         N = int(op["val"].get("N", self.batch_of(t)))
-        if N != self.batch_of(t) and (self.in_composite(x) or any(p.valid and (p.t == x.hid or p.i == x.hid) for p in self.pairs)):
+        if N != self.batch_of(t) and (self.in_composite(x) or self.link_dependents(t) or any(p.valid and (p.t == x.hid or p.i == x.hid) for p in self.pairs)):
             return StepResult("skipped")
         val = self.param_tensor(t, dict(op["val"], kind=k), N)
         if setter in ("angles_",):
@@ -1280,10 +1319,7 @@ class _Ops:
         self.pred_replaces(x)
         for e in self.elems(x):
             e.smooth = False if family(e.obj) in ("dense", "spline") else e.smooth
-            for y in self.storage_mates(e.obj):
-                y.buf = "unknown"
-                y.affine_params = False
-                self.mark_pairs(y, False, "sgd")
+        self.params_changed_in_place(params, "sgd")
         self.related_unknown(x, include_self=True)
         self.note_change(x, "sgd")
         return StepResult("ok", digest_bytes(*[tdig(p) for p in params]))
@@ -1353,50 +1389,11 @@ class _Ops:
         vec = sample_field(params, p, grid.align_corners())  # cube units of t.grid()
         return cube_vec_to_world(vec, grid)
 
-    def op_grid_(self, op) -> StepResult:
-        x = self.get(op["h"])
-        if x is None or x.is_comp:
-            return StepResult("skipped")
+    def _grid_probe(self, x: H, old: Grid, new: Grid, mode: str, op):
+        """Before a grid change of x: what must be preserved, in the regimes where preservation is a theorem."""
         t = x.obj
         fam = family(t)
         k = kind_of(t)
-        old = t.grid()
-        mode = op["mode"]
-        if mode == "subdivide":
-            if fam != "spline" and not (fam == "dense" and old.align_corners()):
-                return StepResult("skipped")
-            dims = op.get("dims") or list(range(self.D))
-            size = [int(s) for s in old.size()]
-            new_size = [2 * s - 1 if i in dims else s for i, s in enumerate(size)]
-            if max(new_size) > (40 if self.D == 2 else 24):
-                return StepResult("skipped")
-            new = old.resize(new_size, align_corners=True)
-        elif mode == "acflip":
-            if fam == "spline":
-                return StepResult("skipped")
-            new = old.align_corners(not old.align_corners())
-        else:
-            new = self.make_grid(op["grid"])
-            if mode == "sub":
-                # axis-aligned sub-domain of the old grid: same direction, smaller extent, shifted centre
-                frac = op["frac"]
-                ext = old.extent().double()
-                nsz = [int(s) for s in op["grid"]["size"]]
-                sp = [float(ext[i]) * frac[i] / nsz[i] for i in range(self.D)]
-                shift = torch.tensor([op["shift"][i] * float(ext[i]) * (1 - frac[i]) * 0.4 for i in range(self.D)], dtype=torch.float64)
-                center = old.center().double() + old.direction().double() @ shift
-                new = Grid(size=nsz, spacing=sp, center=center.float(), direction=old.direction(), align_corners=old.align_corners())
-            if fam == "spline":
-                return StepResult("skipped")
-            if fam == "lin" and False:
-                pass
-        if new.ndim != old.ndim:
-            return StepResult("skipped")
-        if self.shape_bound(x) and tuple(new.size()) != tuple(old.size()):
-            return StepResult("skipped")  # callable parameters: only shape-preserving grids
-        if self.in_composite(x) and not new.same_domain_as(old):
-            return StepResult("skipped")  # members of a composite must keep the common domain
-        # ---- before: world-space probe in the regimes where preservation is a theorem
         probe = None
         velocity = cname(t) in VELOCITY
         if k in ("P", "B") and fam in ("dense", "spline"):
@@ -1423,6 +1420,79 @@ class _Ops:
                         pc = gen.rand(op.get("pseed", 1), (1, 16, self.D), -0.9, 0.9).double() * hull_new
                         w = cube_pts_to_world(pc, new)
                         probe = ("world", w, self._world_probe(t, world_pts_to_cube(w, old), old, velocity))
+        return probe
+
+    def _grid_probe_after(self, x: H, t, probe, old: Grid, new: Grid, desc: str, out: StepResult) -> Optional[StepResult]:
+        """After the grid change (t is the transform that now lives on ``new``): compare with the probe."""
+        velocity = cname(t) in VELOCITY
+        kindp, where, before = probe
+        if kindp == "nodes":
+            st1, r1 = self.guarded(lambda: t.update())
+            bad = self.classify(st1, r1, x, "update-after-grid_")
+            if bad:
+                return bad
+            f1 = t.v if velocity else t.u
+            after = sample_field(f1.detach(), where.expand(f1.shape[0], -1, -1), True)
+            tol = 1e-4 * 2.0 / max(int(s) for s in new.size())
+            err = float((after.double() - before.double()).abs().max())
+            self.c["checks"]["grid_preserves_spline"] += 1
+        else:
+            after = self._world_probe(t, world_pts_to_cube(where, new), new, velocity)
+            tol = 1e-4 * float(min(float(old.spacing().min()), float(new.spacing().min())))
+            err = float((after - before).abs().max())
+            self.c["checks"]["grid_preserves_world_affine"] += 1
+        self.nontrivial = True
+        if not (err <= tol):
+            out.violations.append(self.viol("C09", "world-not-preserved", x, desc, {"max_err": err, "tol": tol, "regime": kindp}))
+        return None
+
+    def op_grid_(self, op) -> StepResult:
+        x = self.get(op["h"])
+        if x is None or x.is_comp:
+            return StepResult("skipped")
+        t = x.obj
+        fam = family(t)
+        k = kind_of(t)
+        old = t.grid()
+        mode = op["mode"]
+        if mode == "subdivide":
+            if fam != "spline" and not (fam == "dense" and old.align_corners()):
+                return StepResult("skipped")
+            dims = op.get("dims") or list(range(self.D))
+            size = [int(s) for s in old.size()]
+            new_size = [2 * s - 1 if i in dims else s for i, s in enumerate(size)]
+            if max(new_size) > (40 if self.D == 2 else 24):
+                return StepResult("skipped")
+            st0, new = self.guarded(lambda: old.resize(new_size, align_corners=True))
+            if st0 != "ok":
+                return StepResult("expected_error", "grid_-resize-assert")
+        elif mode == "acflip":
+            if fam == "spline":
+                return StepResult("skipped")
+            new = old.align_corners(not old.align_corners())
+        else:
+            new = self.make_grid(op["grid"])
+            if mode == "sub":
+                # axis-aligned sub-domain of the old grid: same direction, smaller extent, shifted centre
+                frac = op["frac"]
+                ext = old.extent().double()
+                nsz = [int(s) for s in op["grid"]["size"]]
+                sp = [float(ext[i]) * frac[i] / nsz[i] for i in range(self.D)]
+                shift = torch.tensor([op["shift"][i] * float(ext[i]) * (1 - frac[i]) * 0.4 for i in range(self.D)], dtype=torch.float64)
+                center = old.center().double() + old.direction().double() @ shift
+                new = Grid(size=nsz, spacing=sp, center=center.float(), direction=old.direction(), align_corners=old.align_corners())
+            if fam == "spline":
+                return StepResult("skipped")
+            if fam == "lin" and False:
+                pass
+        if new.ndim != old.ndim:
+            return StepResult("skipped")
+        if self.shape_bound(x) and tuple(new.size()) != tuple(old.size()) and not self.sole_owner(x):
+            return StepResult("skipped")  # callable parameters: only shape-preserving grids (unless nothing else uses the callable)
+        if self.in_composite(x) and not new.same_domain_as(old):
+            return StepResult("skipped")  # members of a composite must keep the common domain
+        probe = self._grid_probe(x, old, new, mode, op)
+        velocity = cname(t) in VELOCITY
         expect = ()
         n_before = int(t.params.shape[0]) if k in ("P", "B") else 0
         st, r = self.guarded(lambda: t.grid_(new), expect=expect)
@@ -1447,25 +1517,9 @@ class _Ops:
             out.violations.append(self.viol("C09", "grid-not-set", x, "grid_:" + mode, {"want": repr(new), "got": repr(t.grid())}))
             return out
         if probe is not None:
-            kindp, where, before = probe
-            if kindp == "nodes":
-                st1, r1 = self.guarded(lambda: t.update())
-                bad = self.classify(st1, r1, x, "update-after-grid_")
-                if bad:
-                    return bad
-                f1 = t.v if velocity else t.u
-                after = sample_field(f1.detach(), where.expand(f1.shape[0], -1, -1), True)
-                tol = 1e-4 * 2.0 / max(int(s) for s in new.size())
-                err = float((after.double() - before.double()).abs().max())
-                self.c["checks"]["grid_preserves_spline"] += 1
-            else:
-                after = self._world_probe(t, world_pts_to_cube(where, new), new, velocity)
-                tol = 1e-4 * float(min(float(old.spacing().min()), float(new.spacing().min())))
-                err = float((after - before).abs().max())
-                self.c["checks"]["grid_preserves_world_affine"] += 1
-            self.nontrivial = True
-            if not (err <= tol):
-                out.violations.append(self.viol("C09", "world-not-preserved", x, "grid_:" + mode, {"max_err": err, "tol": tol, "regime": kindp}))
+            bad = self._grid_probe_after(x, t, probe, old, new, "grid_:" + mode, out)
+            if bad:
+                return bad
         return out
 
     # -------------------------------------------------------- copies and accessors
@@ -1476,11 +1530,26 @@ class _Ops:
             y = self.add_with_members(hid, obj, comp, origin, smooth=x.smooth, member_buf=buf or "unknown")
             y.buf = buf if buf is not None else x.buf
             y.cause = x.cause
+            if isinstance(x.obj, CompositeTransform):
+                self._inherit_members(x.obj, obj, y.comp)
             return y
         y = self.add(hid, obj, comp, origin, buf=buf if buf is not None else x.buf, smooth=x.smooth)
         y.affine_params = x.affine_params
         y.cause = x.cause
         return y
+
+    def _inherit_members(self, src, dst, comp: int):
+        """Members of a copied composite start in the model state of the member they were copied from."""
+        a, b = list(src.transforms()), list(dst.transforms())
+        if len(a) != len(b):
+            return
+        for s_, d_ in zip(a, b):
+            if d_ is s_ or type(d_) is not type(s_):
+                continue
+            ss, ds = self.state(s_, comp), self.state(d_, comp)
+            ds.buf, ds.smooth, ds.cause, ds.affine_params = ss.buf, ss.smooth, ss.cause, ss.affine_params
+            if isinstance(s_, CompositeTransform):
+                self._inherit_members(s_, d_, comp)
 
     def op_copy(self, op) -> StepResult:
         x = self.get(op["h"])
@@ -1498,6 +1567,8 @@ class _Ops:
             g = self.make_grid(op["grid"])
             if self.shape_bound(x):
                 g = Grid(size=t.grid().size(), spacing=g.spacing(), center=g.center(), direction=g.direction(), align_corners=g.align_corners())
+            old_grid = t.grid()
+            gprobe = self._grid_probe(x, old_grid, g, "new", {"pseed": int(op["out"]) + 17})
             st, r = self.guarded(lambda: t.grid(g))
             buf = "cleared"
         elif how == "data":
@@ -1537,13 +1608,22 @@ class _Ops:
             y.smooth = x.smooth and (how == "grid" or op["val"].get("gen", "smooth") in ("smooth", "affine"))
             if how == "data":
                 y.affine_params = op["val"].get("gen") == "affine"
+            else:
+                # resampling onto g keeps a world-affine field affine only where no extrapolation happened
+                y.affine_params = bool(x.affine_params and gprobe is not None and gprobe[0] == "world")
         if how == "link":
             self.merge_comp(x.comp, o.comp)
         if how in ("grid", "data", "condition"):
             self.fresh_changed = {id(y.obj)}
             self.last_change[id(y.obj)] = "acc:" + how
         self.hot = [y.hid, x.hid]
-        return StepResult("ok", how)
+        out = StepResult("ok", how)
+        if how == "grid" and gprobe is not None and r is not t:
+            # t.grid(g) re-expresses the parameters for g: the copy must describe the same world-space deformation
+            bad = self._grid_probe_after(y, r, gprobe, old_grid, g, "acc:grid", out)
+            if bad:
+                return bad
+        return out
 
     def op_deepcopy(self, op) -> StepResult:
         x = self.get(op["h"])
@@ -1736,6 +1816,114 @@ class _Ops:
             out.violations.append(self.viol("C09", "restart-lost-state", y, "restart", {"max_err": err}))
         return out
 
+
+    # -------------------------------------------------------- fit (replaces / optimises the parameters)
+    def op_fit(self, op) -> StepResult:
+        """``t.fit(flow, steps=k, lr=...)``: a parameter-replacing operation named by C09's anchors.
+
+        Dense displacement fields with own parameters are replaced by the resampled flow; every other model
+        runs k optimiser steps on its optimisable parameters (also those it reads through links)."""
+        from deepali.core.grid import Axes
+        from deepali.data.flow import FlowFields
+
+        x = self.get(op["h"])
+        if x is None:
+            return StepResult("skipped")
+        t = x.obj
+        if self.has_none(x) or not self.links_synced(x) or generic_pred(t) or self.owned_by_pred(x):
+            return StepResult("skipped")
+        if any(family(e.obj) == "lin" and kind_of(e.obj) in ("C", "L") and e.buf != "fresh" for e in self.elems(x)):
+            # fit() evaluates disp() without update(): a linear model reads its cached prediction, which the
+            # class documentation only defines after an update()
+            return StepResult("skipped")
+        own = bool(op.get("own", True))
+        g = t.grid() if own else self.make_grid(op["grid"])
+        if g.ndim != t.grid().ndim:
+            return StepResult("skipped")
+        N = self.batch_of(t)
+        shape = tuple(int(n) for n in g.shape)
+        size = [int(n) for n in g.size()]
+        amp = float(op.get("amp", 0.15))
+        data = gen.smooth_field(int(op["fseed"]), self.D, shape, 1.0)
+        for c in range(self.D):
+            data[:, c] *= amp / cube_scale(size[c], g.align_corners())
+        data = data.expand(N, *data.shape[1:]).clone()
+        flow = FlowFields(data, g, Axes.from_grid(g))
+        direct = cname(t) == "DisplacementFieldTransform" and kind_of(t) in ("P", "B")
+        params = [p for p in t.parameters() if p.requires_grad]
+        expect = self.may_be_singular(x)
+        if not direct and not params:
+            expect = expect + (RuntimeError,)
+        steps = int(op.get("steps", 2))
+        st, r = self.guarded(lambda: t.fit(flow, steps=steps, lr=float(op.get("lr", 0.01)), epsilon=0.0), expect=expect)
+        if st == "expected":
+            return StepResult("expected_error", "fit-no-parameters")
+        if st == "faulted":
+            self.c["faults"]["callable_raises"] += 1
+            self.set_buf(x, "unknown")
+            self.related_unknown(x, include_self=True)
+            self.after_fault = True
+            return StepResult("faulted", "fit-faulted")
+        if st == "raised":
+            return StepResult("ok", "fit-raised", [self.viol("C09", "raises", x, "fit", self.exc_detail(r))])
+        self.pred_replaces(x)
+        if direct:
+            x.smooth = True
+            x.affine_params = False
+            self.set_cleared(x, "fit")
+            self.related_unknown(x)
+            self.mark_pairs(x, True, "data_")
+        else:
+            self.params_changed_in_place(params, "sgd")
+            self.related_unknown(x, include_self=True)
+            # fit() leaves the buffers of the transform it was called on cleared (as data_ does)
+            self.set_cleared(x, "fit")
+        self.note_change(x, "fit", fresh=True)
+        self.c["checks"]["fit_completed"] += 1
+        out = StepResult("ok", digest_bytes(*[tdig(p) for p in t.parameters()], *[tdig(e.obj.params) for e in self.elems(x) if kind_of(e.obj) == "B"]))
+        if direct and own and all(int(s) == 1 for s in t.stride):
+            # exact replacement: the displacement field is now the given flow
+            st1, d = self.guarded(lambda: t.disp())
+            if st1 == "ok":
+                ok, err = close(d, data)
+                self.c["checks"]["fit_exact_ddf"] += 1
+                self.nontrivial = True
+                for e in self.elems(x):
+                    e.buf = "fresh"
+                if not ok:
+                    out.violations.append(self.viol("C09", "fit-not-applied", x, "fit", {"max_err": err}))
+                    return out
+        # the dense displacement right after fit() must be that of the fitted parameters
+        sub = self.op_disp({"h": x.hid, "which": op.get("which", "disp")})
+        out.violations.extend(sub.violations)
+        return out
+
+    def op_restore(self, op) -> StepResult:
+        """Roll a live transform back to a checkpoint: ``load_state_dict`` copies the durable values in place."""
+        x = self.get(op["h"])
+        ck = self.ckpt.get(int(op["slot"]))
+        if x is None or ck is None or x.is_comp:
+            return StepResult("skipped")
+        t = x.obj
+        if type(t) is not ck["cls"] or kind_of(t) != ck["kind"] or "params" not in t.state_dict():
+            return StepResult("skipped")
+        if tuple(t.params.shape) != tuple(ck["sd"]["params"].shape) or set(t.state_dict()) != set(ck["sd"]):
+            return StepResult("skipped")
+        st, r = self.guarded(lambda: t.load_state_dict({k: v.clone() for k, v in ck["sd"].items()}))
+        bad = self.classify(st, r, x, "load_state_dict")
+        if bad:
+            return bad
+        self.c["faults"]["rollback"] += 1
+        for y in self.storage_mates(t):
+            y.buf = "unknown"
+            y.smooth = bool(ck["smooth"]) and y.smooth
+            y.affine_params = False
+            self.mark_pairs(y, False, "inplace")
+        self.related_unknown(x, include_self=True)
+        self.note_change(x, "restore")
+        self.after_fault = True
+        return StepResult("ok", digest_bytes(tdig(t.params)))
+
     # -------------------------------------------------------- C07 round trip
     def _linear_cond(self, obj) -> float:
         m = obj.tensor().detach().double()
@@ -1909,10 +2097,10 @@ PROFILES = {
     # weights of operation kinds; observation ops are additionally boosted right after a change
     "C09": {"call": 10, "disp": 9, "update": 2, "clear": 1.5, "data_": 6, "inplace": 5, "sgd": 2, "reset": 2, "grid_": 5,
             "condition_": 4, "copy": 6, "deepcopy": 1.5, "inverse": 3, "link_": 1.5, "compose": 2, "roundtrip": 2,
-            "arm": 2, "interrupt": 2, "checkpoint": 1.5, "restart": 1.5},
+            "arm": 2, "interrupt": 2, "checkpoint": 1.5, "restart": 1.5, "fit": 2.5, "restore": 1},
     "C07": {"call": 4, "disp": 2, "update": 1, "clear": 0.5, "data_": 5, "inplace": 7, "sgd": 3, "reset": 1.5, "grid_": 1,
             "condition_": 4, "copy": 2, "deepcopy": 0.5, "inverse": 9, "link_": 0.5, "compose": 2.5, "roundtrip": 16,
-            "arm": 1, "interrupt": 0.5, "checkpoint": 0.5, "restart": 0.5},
+            "arm": 1, "interrupt": 0.5, "checkpoint": 0.5, "restart": 0.5, "fit": 1.5, "restore": 0.5},
 }
 
 
@@ -2027,7 +2215,7 @@ class _Gen:
         if not sc["faults"]["interrupt"]:
             W["interrupt"] = 0
         if not sc["faults"]["restart"]:
-            W["checkpoint"] = W["restart"] = 0
+            W["checkpoint"] = W["restart"] = W["restore"] = 0
         if self.fresh_changed:
             W["disp"] *= 4
             W["call"] *= 2
@@ -2240,6 +2428,27 @@ class _Gen:
         if not self.ckpt:
             return None
         return {"op": "restart", "slot": rng.choice(sorted(self.ckpt)), "pseed": rng.subseed(), "out": self.alloc(1)}
+
+    def gen_fit(self, rng):
+        x = self.pick(rng, lambda y: not self.has_none(y) and not generic_pred(y.obj) and
+                      (any(p.requires_grad for p in y.obj.parameters()) or cname(y.obj) == "DisplacementFieldTransform" or rng.chance(0.1)))
+        if x is None:
+            return None
+        op = {"op": "fit", "h": x.hid, "fseed": rng.subseed(), "steps": rng.choice([1, 2, 2, 3]), "lr": rng.choice([0.005, 0.02]),
+              "amp": rng.round(0.03, 0.2, 3), "own": bool(rng.chance(0.6)), "which": rng.weighted([("disp", 4), ("tensor", 1)])}
+        if not op["own"]:
+            op["grid"] = gen.grid_desc(rng, self.D, 6, 14 if self.D == 2 else 8)
+            op["grid"]["center"] = list(self.base_grid_desc["center"])
+        return op
+
+    def gen_restore(self, rng):
+        if not self.ckpt:
+            return None
+        slot = rng.choice(sorted(self.ckpt))
+        ck = self.ckpt[slot]
+        x = self.pick(rng, lambda y: not y.is_comp and type(y.obj) is ck["cls"] and kind_of(y.obj) == ck["kind"]
+                      and tuple(y.obj.params.shape) == tuple(ck["sd"]["params"].shape))
+        return None if x is None else {"op": "restore", "h": x.hid, "slot": slot}
 
 
 class World(XformWorld, _Ops, _Gen):
